@@ -226,6 +226,45 @@ def memory_layout_block(ctx, rng):
                            what="DiffRHS.jac at a %s copy of the state differs from the one at the C-ordered state by %.2e" % (lname, err))
 
 
+def column_model_block(ctx, rng):
+    """JacobianWrapper.estimate against the Lean model of its column loop (DV.Jac.fdColumn on the regenerated stencils, driver command
+    fdcol): polynomial maps R^n -> R^n with dyadic coefficients, dyadic points and steps, every base order; the model is exact, the
+    implementation may differ by the rounding of a difference quotient"""
+    import random as _random
+    import polyrhs
+    from impl import q, qlist
+    from fractions import Fraction as Fr
+    r = _random.Random(ctx.seed * 32452843 + 16)
+    cases, lines = [], []
+    for order in (2, 3, 4, 5, 6, 7, 8):
+        for rep in range(2 if ctx.quick() else 10):
+            n = r.choice([1, 2, 3])
+            f = polyrhs.random_poly(r, n, max_deg=r.choice([1, 2, 3]), time_dep=False)
+            y = [Fr(r.randint(-12, 12), 8) for _ in range(n)]
+            dy = Fr(1, r.choice([4, 16, 64]))
+            try:
+                w = U.JacobianWrapper(lambda yy, f=f: f(0.0, yy), base_order=order, flat=True)
+                J = np.atleast_2d(np.asarray(w.estimate(np.array([float(v) for v in y]), dy=float(dy)), dtype=np.float64))
+            except Exception as e:
+                ctx.oracle("wrapper-runs", False, dict(kind="fd-column", base_order=order, rhs=f.proto()), what="estimate raised %r" % (e,))
+                continue
+            for idx in range(n):
+                cases.append((order, f, y, dy, idx, J[:, idx].copy()))
+                lines.append("fdcol %d %d %s %s %d %s" % (order, n, f.proto(), qlist(y), idx, q(dy)))
+    outs = ctx.driver(lines)
+    for (order, f, y, dy, idx, col), o in zip(cases, outs):
+        inp = dict(kind="fd-column", base_order=order, rhs=f.proto(), y=[str(v) for v in y], dy=str(dy), column=idx)
+        try:
+            m = [Fr(x) for x in o.split(",")]
+        except Exception:
+            ctx.corr("fd-column", False, dict(inp, model=o[:100])); continue
+        fmax = max([1.0] + [abs(float(v)) for v in f.exact(0, y)])
+        tol = 1e-13 * (fmax / float(dy)) * 50 + 1e-12 * max([1.0] + [abs(float(v)) for v in m])
+        err = max(abs(float(Fr(float(a)) - b)) for a, b in zip(col, m)) if len(m) == len(col) else float("inf")
+        ctx.corr("fd-column", err <= tol, dict(inp, impl=[float(v) for v in col], model=[float(v) for v in m], err=err, tol=tol))
+        ctx.count("fd-column:order%d" % order)
+
+
 def reuse_block(ctx, rng):
     """ONE JacobianWrapper object (and one DiffRHS) evaluated at a sequence of points of very different difficulty: the result at a
     point must not depend on what the same object evaluated before"""
@@ -299,6 +338,7 @@ def implicit_block(ctx, rng):
 
 def run(ctx):
     memory_layout_block(ctx, ctx.rng)
+    column_model_block(ctx, ctx.rng)
     dispatch_block(ctx, ctx.rng)
     accuracy_block(ctx, ctx.rng)
     reuse_block(ctx, ctx.rng)
